@@ -201,8 +201,20 @@ func forEachHybrid(c *Ctx, cb func(tok, label, role, layout string)) {
 	}
 }
 
+func isKeyOfRole(r byte, s string) bool {
+	switch r {
+	case 'O':
+		return nkeys.IsValidPublicOperatorKey(s)
+	case 'A':
+		return nkeys.IsValidPublicAccountKey(s)
+	case 'U':
+		return nkeys.IsValidPublicUserKey(s)
+	}
+	return false
+}
+
 func runC02(c *Ctx) {
-	c.Res.Rule = "complete finite matrix: claim kind (7) x issuer role (operator, account, user, server, cluster, curve) x subject role x layout (v1, v2) x direction, plus hybrid payloads (top-level kind K1 with nats.type K2 != K1 and nats.version absent/1/2, all roles, both signing layouts). Decode side: forged-but-correctly-signed tokens (payload of a valid token with iss replaced - and, in half of the cells, sub set to the same key; in a third each, issuer_account resp. aud naming an account key -, re-signed by the forged key in the chosen layout), through Decode, DecodeGeneric and every typed decoder. Encode side: every kind x signer role x subject role through the real Encode, with the minimal claims of the kind and with claims of arbitrary other content (reflective generator: every optional section and flag present or absent). Oracle: accepted => issuer role in the property's table and typed decoders only return/accept their own kind, and the kind the returned claims declare (ClaimType) is the kind of the object built and role-checked; Encode with a non-permitted signer or non-fitting subject => error and empty token. non-trivial = distinct matrix cells."
+	c.Res.Rule = "complete finite matrix: claim kind (7) x issuer role (operator, account, user, server, cluster, curve) x subject role x layout (v1, v2) x direction, plus hybrid payloads (top-level kind K1 with nats.type K2 != K1 and nats.version absent/1/2, all roles, both signing layouts). Decode side: forged-but-correctly-signed tokens (payload of a valid token with iss replaced - and, in half of the cells, sub set to the same key; in a third each, issuer_account resp. aud naming an account key -, re-signed by the forged key in the chosen layout), through Decode, DecodeGeneric and every typed decoder. Encode side: every kind x signer role x subject role (plus near-keys: a fitting key padded with blanks or tabs, in lower case, cut short, extended) through the real Encode, with the minimal claims of the kind and with claims of arbitrary other content (reflective generator: every optional section and flag present or absent). Oracle: accepted => issuer role in the property's table and typed decoders only return/accept their own kind, and the kind the returned claims declare (ClaimType) is the kind of the object built and role-checked; Encode with a non-permitted signer or non-fitting subject => error and empty token. non-trivial = distinct matrix cells."
 	roles := []byte{'O', 'A', 'U', 'N', 'C', 'X'}
 	// ---------- decode side ----------
 	for _, kind := range allKinds {
@@ -267,15 +279,36 @@ func runC02(c *Ctx) {
 	})
 	// ---------- encode side ----------
 	subjects := map[byte]string{'O': pubOf(kpN('O', 3)), 'A': pubOf(kpN('A', 3)), 'U': pubOf(kpN('U', 3)), 'N': pubOf(kpN('N', 3)), 'C': pubOf(kpN('C', 3)), 'X': pubOf(kpN('X', 3)), '-': "not-a-key"}
+	// near-keys: a key of a subject role with blanks around it, in lower case, cut short or extended names no key of any
+	// role (the nkeys validators, which are not under test, are the judge); Encode must refuse them like any other non-key
+	type subj struct {
+		label string
+		role  byte
+		text  string
+	}
+	var subs []subj
+	for _, r := range []byte{'O', 'A', 'U', 'N', 'C', 'X', '-'} {
+		subs = append(subs, subj{string(r), r, subjects[r]})
+	}
+	for _, r := range []byte{'O', 'A', 'U'} {
+		k := subjects[r]
+		for i, v := range []string{" " + k, k + " ", "\t" + k, k + "\t", " " + k + " ", strings.ToLower(k), k[:len(k)-1], k + "A", k + "=", k[:1] + " " + k[1:]} {
+			if isKeyOfRole(r, v) {
+				continue // the validator itself accepts this spelling (base32 slack): a matter of nkeys, not of this library
+			}
+			subs = append(subs, subj{fmt.Sprintf("%c~%d", r, i), '-', v})
+		}
+	}
 	for _, kind := range allKinds {
 		for _, role := range []byte{'O', 'A', 'U', 'N', 'C'} {
-			for sr, sub := range subjects {
+			for _, sj := range subs {
+				sr, sub := sj.role, sj.text
 				permitted := strings.ContainsRune(allowedRoles[kind], rune(role))
 				fits := true
 				if want, ok := subjectRoleOf[kind]; ok {
 					fits = sr == want
 				}
-				rp := c02Replay{"encode", kind, string(role), string(sr), "", ""}
+				rp := c02Replay{"encode", kind, string(role), sj.label, "", ""}
 				// the minimal claims of the kind, then claims with arbitrary other content (every optional section and
 				// flag present or absent: bearer token, scoped keys, limits, ...): the role rules hold whatever else is set
 				rich := 4
@@ -292,7 +325,7 @@ func runC02(c *Ctx) {
 					tok, err := encodeOp(c, kind, claims, kp, true)
 					if !permitted || !fits {
 						if err == nil || tok != "" {
-							c.Violate("encode-accepts", fmt.Sprintf("Encode of a %s claim (content shape %d) succeeded with signer role %c and subject role %c", kind, shape, role, sr), rp)
+							c.Violate("encode-accepts", fmt.Sprintf("Encode of a %s claim (content shape %d) succeeded with signer role %c and subject %q (role %c)", kind, shape, role, sub, sr), rp)
 						}
 						c.Count("encode-refused")
 					} else {
